@@ -41,7 +41,8 @@ fn parse_infix(naming: NamingK, infix: &str) -> Option<(Role, (u8, String, i64))
         if digits.len() > 5 && digits.starts_with('0') {
             return None;
         }
-        let n: i64 = digits.parse().ok()?;
+        // a valid index that has a successor
+        let n: i64 = i64::from(digits.parse::<u32>().ok().filter(|n| *n < u32::MAX)?);
         return Some((Role::Rotated, (0, String::new(), n)));
     }
     let fmt = naming.ts_format()?;
